@@ -18,6 +18,10 @@ func main() {
 		fmt.Fprintln(os.Stderr, "usage: raftmc C15 | raftmc replay <file>")
 		os.Exit(2)
 	}
+	if os.Args[1] == "scenario" {
+		scenario(os.Args[2], os.Args[3:])
+		return
+	}
 	if os.Args[1] == "selfbench" {
 		d := 7
 		fmt.Sscan(os.Args[3], &d)
